@@ -2145,6 +2145,9 @@ func (r *Raft) isSingleServerCluster() bool {
 // pendingConfigurationChange returns true if the current configuration
 // has not been committed.
 func (r *Raft) pendingConfigurationChange() bool {
+	// A membership change accepted by this leader stays pending until it has been applied,
+	// whether or not the configuration in force has already been switched to it.
 	return r.committedConfiguration == nil ||
-		r.committedConfiguration.Index != r.configuration.Index
+		r.committedConfiguration.Index != r.configuration.Index ||
+		r.configurationResponseCh != nil
 }
